@@ -13,7 +13,8 @@ TB = ("Trusted base: TLC 1.8 (tla2tools + CommunityModules), the TLA+ text under
       "object (re-used bytearray, non-dict mappings, str subclasses; pipes, gzip files, files behind a header, "
       "yielding Python-level files; a configuration derived by copy-and-edit from one already in use; a dictionary "
       "re-used as a template), object lifetime, four threads working on separate objects at once, two histories in "
-      "strict lock-step (drv.Baton), and 120 frames of stack - every such history is judged by the same clauses. ")
+      "strict lock-step (drv.Baton), 120 frames of stack, a transient I/O error that the caller retries, copies and "
+      "pickles of objects, a module re-load between two calls - every such history is judged by the same clauses. ")
 
 # pid -> (technique, level text, level note, design ref)
 CLAIMS = {
